@@ -201,6 +201,15 @@ class Parser:
         if self.at("&"):
             self.next()
             return self.pattern1()
+        if self.at("["):
+            self.next()
+            items = []
+            while not self.at("]"):
+                items.append(self.pattern())
+                if self.at(","):
+                    self.next()
+            self.expect("]")
+            return ("parray", items)
         name = self.expect_id()
         if name == "_":
             return ("pwild",)
@@ -323,7 +332,11 @@ class Parser:
                 e = ("call", e, self.args())
             elif self.at("["):
                 self.next()
-                idx = self.expr()
+                if self.at("..") and self.peek(1) == ("op", "]"):
+                    self.next()
+                    idx = ("range", None, None, False)
+                else:
+                    idx = self.expr()
                 self.expect("]")
                 e = ("index", e, idx)
             elif self.at("?"):
